@@ -16,10 +16,14 @@ SubLayout(k) ==
   LayoutD(<<GoodSig(k)>>, 1000, <<"k3">>,
           <<StepD("in1", <<"k3">>, 1, << >>, <<Simple("CREATE", PA)>>)>>, << >>)
 
-FileStates == {"absent", "valid", "other", "flipped", "tampered", "requoted", "misfiled", "multi",
+\* "dotsfile" / "truncfile": validly signed by k but filed under eight characters that are no prefix of k's id
+\* (eight dots; three characters of the id followed by ".link") - under a prefix none of its signatures carries
+FileStates == {"absent", "valid", "other", "flipped", "tampered", "requoted", "respaced", "dotsfile", "truncfile", "misfiled", "multi",
                "badplusother", "sublayout", "garbage"}
 StatesFor(k) == IF k = "kx" THEN {"absent", "valid"}
-                ELSE IF Tier = "quick" THEN FileStates \ {"garbage"} ELSE FileStates
+                ELSE IF Tier = "quick"
+                     THEN (IF k = "k2" THEN FileStates \ {"garbage", "respaced", "dotsfile", "truncfile"} ELSE FileStates \ {"garbage"})
+                     ELSE FileStates
 
 Entries(k, st) ==
   CASE st = "absent"    -> << >>
@@ -29,6 +33,9 @@ Entries(k, st) ==
     [] st = "tampered"  -> <<Entry(<< >>, "s1", k, [S1Link(<<GoodSig(k)>>) EXCEPT !.edit = "product"])>>
     \* altered so that only string quoting tells the signed from the shipped content
     [] st = "requoted"  -> <<Entry(<< >>, "s1", k, [S1Link(<<GoodSig(k)>>) EXCEPT !.edit = "cmd_requote"])>>
+    [] st = "dotsfile"  -> <<Entry(<< >>, "s1", k \o ":dots", S1Link(<<GoodSig(k)>>))>>
+    [] st = "truncfile" -> <<Entry(<< >>, "s1", k \o ":trunc3", S1Link(<<GoodSig(k)>>))>>
+    [] st = "respaced"  -> <<Entry(<< >>, "s1", k, [S1Link(<<GoodSig(k)>>) EXCEPT !.edit = "cmd_respace"])>>
     [] st = "misfiled"  -> <<Entry(<< >>, "s1", k, S1Link(<<GoodSig(Other(k))>>))>>
     [] st = "multi"     -> <<Entry(<< >>, "s1", k, S1Link(<<GoodSig(Other(k)), GoodSig(k)>>))>>
     \* the named key's own signature does not verify, a co-functionary's does
